@@ -90,6 +90,385 @@ TokenTextAt(alpha, i, frame) ==
 Inputs == {TokenTextAt(Tok20, i, "top") : i \in 1..NumInputs}
 
 ---------------------------------------------------------------------------
+(* Index-addressed families of STRUCTURED programs (C07).                   *)
+(*                                                                         *)
+(* The token-string universes are exhaustive but shallow (<= 5 tokens);    *)
+(* the families below are the systematically DEEP and the systematically   *)
+(* MISPLACED programs.  A case is a record                                 *)
+(*    [id |-> STRING, files |-> <<[name, text], ...>>, nostd |-> BOOLEAN]  *)
+(* whose first file is the main file.  FamSize(f) / FamCase(f, i) address  *)
+(* family f by index; TLC emits the cases (MC_Families) and re-derives id  *)
+(* and text of every recorded run during trace validation.                 *)
+(*                                                                         *)
+(*  nest     every nestable construct nested in itself and in every other  *)
+(*           (alternating), depths 8/16/24/32, as trailing expression of   *)
+(*           its block and as a non-trailing statement, well typed and with*)
+(*           a type error planted at the innermost level                   *)
+(*  nestraw  the type-changing literals (list, tuple, blob, function)      *)
+(*           inside each other, same grid                                  *)
+(*  nestsolo towers that are not wrappers: not/call/index/field-access     *)
+(*           chains, nested blob declarations through field types, nested  *)
+(*           type annotations; import chains a -> b -> c ... of length 8/16*)
+(*  place    every top-level-only statement kind x every inner position x  *)
+(*           what else the declared name is; every inner-only statement    *)
+(*           kind at the top level of the main and of an imported file     *)
+(*  cyc      import cycles (self, 2, 3) in which some or EVERY file has a  *)
+(*           syntax error                                                  *)
+(*  selfty   self-referential inferred types appearing in a type error     *)
+(***************************************************************************)
+FamDig == <<"0", "1", "2", "3", "4", "5", "6", "7", "8", "9">>
+RECURSIVE FamNum(_)
+FamNum(n) == IF n < 10 THEN FamDig[n + 1] ELSE FamNum(n \div 10) \o FamDig[(n % 10) + 1]
+
+FamNum2(n) == IF n < 10 THEN "0" \o FamNum(n) ELSE FamNum(n)      \* file names that sort like their numbers
+
+RECURSIVE FamJoin(_, _)
+\* the texts of a sequence of lines, each ended by a newline
+FamJoin(lines, q) == IF q > Len(lines) THEN "" ELSE lines[q] \o NL \o FamJoin(lines, q + 1)
+FamLines(lines) == FamJoin(lines, 1)
+FamFile(name, text) == [name |-> name, text |-> text]
+FamMain(text) == <<FamFile("main.sy", text)>>
+
+\* ---- nest: composable wrappers -------------------------------------------------------------------
+\* Three sorts: X (an expression of type int), S (a statement without a value), B (a block: statements,
+\* valued when its last line is an int expression).  A wrapper takes an X, a B or an S:
+\*   in = "X":  a \o x \o b                           is an X
+\*   in = "B":  a \o block \o b  (valued block)       is an X (out = "X") or an S (out = "S")
+\*              c \o block \o d  (block without value) is an S
+\*   in = "S":  a \o statement                        is an S
+NestWx(id, a, b) == [id |-> id, in |-> "X", a |-> a, b |-> b, c |-> "", d |-> "", out |-> "X"]
+\* ... whose operand is followed by an infix operator: an arrow call there must be parenthesised (a -> f() + 1 is no expression)
+NestWl(id, a, b) == [id |-> id, in |-> "X", a |-> a, b |-> b, c |-> "left", d |-> "", out |-> "X"]
+NestWb(id, a, b, c, d, out) == [id |-> id, in |-> "B", a |-> a, b |-> b, c |-> c, d |-> d, out |-> out]
+NestWs(id, a) == [id |-> id, in |-> "S", a |-> a, b |-> "", c |-> "", d |-> "", out |-> "S"]
+
+NestW == <<
+    NestWb("ifbody",   "if true do" \o NL,  NL \o "else" \o NL \o "0" \o NL \o "end",
+                       "if true do" \o NL,  NL \o "end", "X"),
+    NestWl("ifcond",   "if ", " == 0 do 1 else 0 end"),
+    NestWb("elifbody", "if false do" \o NL \o "0" \o NL \o "elif true do" \o NL,  NL \o "else" \o NL \o "0" \o NL \o "end",
+                       "if false do" \o NL \o "elif true do" \o NL,  NL \o "end", "X"),
+    NestWl("elifcond", "if false do 0 elif ", " == 0 do 1 else 0 end"),
+    NestWb("elsebody", "if false do" \o NL \o "0" \o NL \o "else do" \o NL,  NL \o "end",
+                       "if false do" \o NL \o "else do" \o NL,  NL \o "end", "X"),
+    NestWb("casearm",  "case E.A 1 do" \o NL \o "A v -> do" \o NL,  NL \o "end" \o NL \o "else do" \o NL \o "0" \o NL \o "end" \o NL \o "end",
+                       "case E.A 1 do" \o NL \o "A v -> do" \o NL,  NL \o "end" \o NL \o "else do" \o NL \o "end" \o NL \o "end", "X"),
+    NestWb("caseelse", "case E.B do" \o NL \o "A v -> do" \o NL \o "v" \o NL \o "end" \o NL \o "else do" \o NL,  NL \o "end" \o NL \o "end",
+                       "case E.B do" \o NL \o "A v -> do" \o NL \o "end" \o NL \o "else do" \o NL,  NL \o "end" \o NL \o "end", "X"),
+    NestWx("casescrut", "case E.A ", " do A v -> v end else 0 end end"),
+    NestWb("loopdo",   "loop false do" \o NL,  NL \o "end",  "loop false do" \o NL,  NL \o "end", "S"),
+    NestWs("loopbare", "loop false "),
+    NestWb("doblock",  "do" \o NL,  NL \o "end",  "do" \o NL,  NL \o "end", "S"),
+    NestWb("fndef",    "g :: fn -> int do" \o NL,  NL \o "end",  "g :: fn do" \o NL,  NL \o "end", "S"),
+    NestWb("iife",     "(fn -> int do" \o NL,  NL \o "end)()",  "(fn do" \o NL,  NL \o "end)()", "X"),
+    NestWx("paren",    "(", ")"),
+    NestWx("list",     "lh([", "])"),
+    NestWx("tuple",    "(", ", 0)[0]"),
+    NestWx("blob",     "Bl { f: ", " }.f"),
+    NestWx("callarg",  "id(", ")"),
+    NestWx("arrow",    "", " -> id()"),
+    NestWl("addleft",  "", " + 1"),
+    NestWx("addright", "1 + (", ")"),
+    NestWx("neg",      "-", "")
+>>
+NestK == Len(NestW)
+NestDepths == <<8, 16, 24, 32>>
+NestPos == <<"last", "mid">>        \* the nested construct is the trailing expression / last statement of its block, or not
+NestCores == <<"ok", "err">>
+NestGrid == Len(NestDepths) * Len(NestPos) * Len(NestCores)
+NestMaxLevels == 40
+
+\* a built piece: t = text, s = sort ("X" | "S"), n = levels,
+\* p = an S that starts with "(" (cannot follow a loop condition), l = an X that is an arrow call (cannot be a left operand)
+NestCore(core) == [t |-> IF core = "ok" THEN "1" ELSE "(1 + " \o StrLit \o ")", s |-> "X", p |-> FALSE, l |-> FALSE, n |-> 0]
+\* a statement where only an expression can stand: the body of an immediately invoked closure
+NestBridge(t) == "(fn -> int do" \o NL \o t \o NL \o "0" \o NL \o "end)()"
+\* the block holding piece r: <<text, valued>>
+NestBlock(r, pos) ==
+    IF r.s = "X" THEN (IF pos = "last" THEN <<r.t, TRUE>> ELSE <<"q = " \o r.t \o NL \o "0", TRUE>>)
+    ELSE (IF pos = "last" THEN <<r.t, FALSE>> ELSE <<r.t \o NL \o "0", TRUE>>)
+
+NestApply(w, r, pos) ==
+    CASE w.in = "X" ->
+           [t |-> w.a \o (IF r.s = "S" THEN NestBridge(r.t) ELSE IF r.l /\ w.c = "left" THEN "(" \o r.t \o ")" ELSE r.t) \o w.b,
+            s |-> "X", p |-> FALSE, l |-> w.id = "arrow", n |-> r.n + (IF r.s = "X" THEN 1 ELSE 2)]
+      [] w.in = "S" ->
+           [t |-> w.a \o (IF r.s = "X" THEN "q = " \o r.t ELSE IF r.p THEN "do" \o NL \o r.t \o NL \o "end" ELSE r.t),
+            s |-> "S", p |-> FALSE, l |-> FALSE, n |-> r.n + (IF r.s = "S" /\ r.p THEN 2 ELSE 1)]
+      [] w.in = "B" ->
+           LET blk == NestBlock(r, pos) IN
+           IF blk[2] THEN [t |-> w.a \o blk[1] \o w.b, s |-> w.out, p |-> FALSE, l |-> FALSE, n |-> r.n + 1]
+           ELSE [t |-> w.c \o blk[1] \o w.d, s |-> "S", p |-> w.id = "iife", l |-> FALSE, n |-> r.n + 1]
+
+\* wrappers a (innermost), b, a, b, ... around piece r until d levels are reached (a bridge counts as a level)
+RECURSIVE NestGrow(_, _, _, _, _)
+NestGrow(r, a, b, d, pos) == IF r.n >= d THEN r ELSE NestGrow(NestApply(a, r, pos), b, a, d, pos)
+NestBuild(a, b, d, pos, core) == NestGrow(NestCore(core), a, b, d, pos)
+
+NestPrelude == FamLines(<<"E :: enum A int, B end", "Bl :: blob { f: int }", "Bg :: blob(*T) { f: *T }",
+                          "id :: fn a: int -> int do ret a end", "lh :: fn l: [int] -> int do ret 0 end">>)
+NestFrame(r, pos) ==
+    LET blk == NestBlock(r, pos) IN
+    NestPrelude \o
+    (IF blk[2] THEN FamLines(<<"h :: fn -> int do", "q := 0", blk[1], "end", "start :: fn do", "w := h()", "end">>)
+     ELSE FamLines(<<"h :: fn do", "q := 0", blk[1], "end", "start :: fn do", "h()", "end">>))
+
+\* grid coordinates of 0-based m: core fastest, then position, then depth
+NestCoreOf(m) == NestCores[(m % 2) + 1]
+NestPosOf(m) == NestPos[((m \div 2) % 2) + 1]
+NestDepthOf(m) == NestDepths[((m \div 4) % 4) + 1]
+NestGridId(m) == "d" \o FamNum(NestDepthOf(m)) \o ":" \o NestPosOf(m) \o ":" \o NestCoreOf(m)
+
+NestSize == NestK * NestK * NestGrid
+NestId(i) == LET m == i - 1 IN
+    "nest:" \o NestW[(m \div (NestGrid * NestK)) + 1].id \o "/" \o NestW[((m \div NestGrid) % NestK) + 1].id \o ":" \o NestGridId(m)
+NestPiece(i) == LET m == i - 1 IN
+    NestBuild(NestW[(m \div (NestGrid * NestK)) + 1], NestW[((m \div NestGrid) % NestK) + 1], NestDepthOf(m), NestPosOf(m), NestCoreOf(m))
+NestCase(i) == [id |-> NestId(i), files |-> FamMain(NestFrame(NestPiece(i), NestPosOf(i - 1))), nostd |-> TRUE]
+
+\* ---- nestraw: the literals whose type changes with every level, inside each other ------------------
+NestRaw == << [id |-> "list", a |-> "[", b |-> "]"], [id |-> "tuple", a |-> "(", b |-> ",)"],
+              [id |-> "blob", a |-> "Bg { f: ", b |-> " }"], [id |-> "fn", a |-> "fn ->" \o NL, b |-> NL \o "end"] >>   \* (a type may follow "->" on the same line)
+RawK == Len(NestRaw)
+RECURSIVE RawBuild(_, _, _, _)
+RawBuild(a, b, d, core) == IF d = 0 THEN NestCore(core).t ELSE a.a \o RawBuild(b, a, d - 1, core) \o a.b
+\* the value of an inferred-type function (trailing) or of a local definition (not trailing)
+RawFrame(x, pos) ==
+    NestPrelude \o
+    (IF pos = "last" THEN FamLines(<<"h :: fn ->", "q := 0", x, "end", "start :: fn do", "w := h()", "end">>)
+     ELSE FamLines(<<"h :: fn do", "q := 0", "w := " \o x, "q = 1", "end", "start :: fn do", "h()", "end">>))
+RawSize == RawK * RawK * NestGrid
+RawId(i) == LET m == i - 1 IN
+    "nestraw:" \o NestRaw[(m \div (NestGrid * RawK)) + 1].id \o "/" \o NestRaw[((m \div NestGrid) % RawK) + 1].id \o ":" \o NestGridId(m)
+RawCase(i) == LET m == i - 1 IN
+    [id |-> RawId(i), nostd |-> TRUE,
+     files |-> FamMain(RawFrame(RawBuild(NestRaw[(m \div (NestGrid * RawK)) + 1], NestRaw[((m \div NestGrid) % RawK) + 1],
+                                         NestDepthOf(m), NestCoreOf(m)), NestPosOf(m)))]
+
+\* ---- nestsolo: towers that are not wrappers ------------------------------------------------------
+RECURSIVE FamRep(_, _)
+FamRep(s, n) == IF n = 0 THEN "" ELSE s \o FamRep(s, n - 1)
+\* blob declarations N0 { f: N1 }, ..., N<d> { f: <last> }
+RECURSIVE SoloDecls(_, _, _)
+SoloDecls(q, d, last) ==
+    IF q = d THEN "N" \o FamNum(q) \o " :: blob { f: " \o last \o " }" \o NL
+    ELSE "N" \o FamNum(q) \o " :: blob { f: N" \o FamNum(q + 1) \o " }" \o NL \o SoloDecls(q + 1, d, last)
+RECURSIVE SoloLit(_, _, _)
+SoloLit(q, d, x) == IF q = d THEN "N" \o FamNum(q) \o " { f: " \o x \o " }"
+                    ELSE "N" \o FamNum(q) \o " { f: " \o SoloLit(q + 1, d, x) \o " }"
+RECURSIVE SoloListTy(_)
+SoloListTy(d) == IF d = 0 THEN "int" ELSE "[" \o SoloListTy(d - 1) \o "]"
+RECURSIVE SoloTupleTy(_)
+SoloTupleTy(d) == IF d = 0 THEN "int" ELSE "(" \o SoloTupleTy(d - 1) \o ",)"
+RECURSIVE SoloFnTy(_)
+SoloFnTy(d) == IF d = 0 THEN "int" ELSE "fn -> " \o SoloFnTy(d - 1)
+
+SoloShapes == <<"not", "fncall", "tupleindex", "fieldchain", "blobliteral", "blobdecls", "fieldassign",
+                "listtype", "tupletype", "fntype">>
+SoloK == Len(SoloShapes)
+\* <<top-level declarations, lines of the body of h (the construct is the last of them unless pos = "mid")>>
+SoloParts(shape, d, core) ==
+    LET bad == "(1 + " \o StrLit \o ")"
+        x == IF core = "ok" THEN "1" ELSE bad IN
+    CASE shape = "not" -> <<"", <<"w := " \o FamRep("not ", d) \o (IF core = "ok" THEN "true" ELSE "(" \o bad \o " == 0)")>> >>
+      [] shape = "fncall" -> <<"", <<"w := (" \o FamRep("fn ->" \o NL, d) \o x \o FamRep(NL \o "end", d) \o ")" \o FamRep("()", d)>> >>
+      [] shape = "tupleindex" -> <<"", <<"w := " \o FamRep("(", d) \o x \o FamRep(",)", d) \o FamRep("[0]", d)>> >>
+      [] shape = "fieldchain" -> <<SoloDecls(0, d - 1, "int"),
+                                   <<"v := " \o SoloLit(0, d - 1, "1"),
+                                     "w := v" \o FamRep(".f", d) \o (IF core = "ok" THEN " + 1" ELSE " + " \o StrLit)>> >>
+      [] shape = "blobliteral" -> <<SoloDecls(0, d - 1, "int"), <<"w := " \o SoloLit(0, d - 1, x)>> >>
+      [] shape = "blobdecls" -> <<SoloDecls(0, d - 1, IF core = "ok" THEN "int" ELSE "Nope"), <<"w := 1">> >>
+      [] shape = "fieldassign" -> <<SoloDecls(0, d - 1, "int"),
+                                    <<"v := " \o SoloLit(0, d - 1, "1"), "v" \o FamRep(".f", d) \o " = " \o (IF core = "ok" THEN "2" ELSE StrLit)>> >>
+      [] shape = "listtype" -> <<"", <<"w: " \o SoloListTy(d) \o " = " \o FamRep("[", d) \o x \o FamRep("]", d)>> >>
+      [] shape = "tupletype" -> <<"", <<"w: " \o SoloTupleTy(d) \o " = " \o FamRep("(", d) \o x \o FamRep(",)", d)>> >>
+      [] shape = "fntype" -> <<"", <<"w: " \o SoloFnTy(d) \o " = " \o FamRep("fn ->" \o NL, d) \o x \o FamRep(NL \o "end", d)>> >>
+SoloText(shape, d, pos, core) ==
+    LET parts == SoloParts(shape, d, core) IN
+    NestPrelude \o parts[1] \o "h :: fn do" \o NL \o "q := 0" \o NL \o FamLines(parts[2])
+    \o (IF pos = "mid" THEN "q = 1" \o NL ELSE "") \o FamLines(<<"end", "start :: fn do", "h()", "end">>)
+
+\* import chains: main -> m1 -> ... -> m<d>; every file adds one to the constant of the next
+ChainForms == <<"use", "from">>
+ChainLens == <<8, 16>>
+ChainLast(core) == IF core = "ok" THEN "x :: 1" ELSE "x :: 1 + " \o StrLit
+ChainFileText(form, q, d, core) ==
+    IF q = d THEN ChainLast(core) \o NL
+    ELSE IF form = "use" THEN FamLines(<<"use m" \o FamNum2(q + 1), "x :: m" \o FamNum2(q + 1) \o ".x + 1">>)
+    ELSE FamLines(<<"from m" \o FamNum2(q + 1) \o " use x as y", "x :: y + 1">>)
+RECURSIVE ChainFiles(_, _, _, _)
+ChainFiles(form, q, d, core) ==
+    IF q > d THEN <<>>
+    ELSE <<FamFile(IF q = 0 THEN "main.sy" ELSE "m" \o FamNum2(q) \o ".sy",
+                   ChainFileText(form, q, d, core) \o (IF q = 0 THEN FamLines(<<"start :: fn do", "w := x", "end">>) ELSE ""))>>
+         \o ChainFiles(form, q + 1, d, core)
+ChainSize == Len(ChainForms) * Len(ChainLens) * Len(NestCores)
+SoloSize == SoloK * NestGrid + ChainSize
+SoloCase(i) ==
+    IF i <= SoloK * NestGrid THEN
+        LET m == i - 1
+            shape == SoloShapes[(m \div NestGrid) + 1] IN
+        [id |-> "nestsolo:" \o shape \o ":" \o NestGridId(m), nostd |-> TRUE,
+         files |-> FamMain(SoloText(shape, NestDepthOf(m), NestPosOf(m), NestCoreOf(m)))]
+    ELSE LET m == i - 1 - SoloK * NestGrid
+             form == ChainForms[(m \div 4) + 1]
+             d == ChainLens[((m \div 2) % 2) + 1]
+             core == NestCores[(m % 2) + 1] IN
+         [id |-> "nestsolo:chain-" \o form \o ":d" \o FamNum(d) \o ":" \o core, nostd |-> TRUE,
+          files |-> ChainFiles(form, 0, d, core)]
+
+\* ---- place: statements in the wrong place -----------------------------------------------------------
+\* (1) every statement kind that is legal at the top level only, written at every inner position, while its
+\*     name is also a global of the same kind / a global of another kind / a local / nothing at all
+PlaceKinds == <<"blob", "enum", "external", "use", "fromuse">>
+PlaceName(kind) == CASE kind \in {"blob", "enum"} -> "T" [] kind = "external" -> "t" [] kind = "use" -> "b" [] kind = "fromuse" -> "x"
+PlaceDecl(kind) == CASE kind = "blob" -> "T :: blob { g: int }"
+                     [] kind = "enum" -> "T :: enum P, Q end"
+                     [] kind = "external" -> "t: int : external"
+                     [] kind = "use" -> "use b"
+                     [] kind = "fromuse" -> "from b use x"
+PlaceClasses == <<"same", "other", "local", "unknown">>
+\* <<top-level lines, local line>> that make the name what the class says
+PlaceContext(kind, cls) ==
+    CASE cls = "same" -> <<CASE kind = "blob" -> <<"T :: blob { f: int }">>
+                             [] kind = "enum" -> <<"T :: enum X end">>
+                             [] kind = "external" -> <<"t: int : external">>
+                             [] kind = "use" -> <<"use b">>
+                             [] kind = "fromuse" -> <<"from b use x">>, <<>> >>
+      [] cls = "other" -> <<CASE kind = "blob" -> <<"T :: enum X end">>
+                              [] kind = "enum" -> <<"T :: blob { f: int }">>
+                              [] kind = "external" -> <<"t :: 1">>
+                              [] kind = "use" -> <<"b :: 1">>
+                              [] kind = "fromuse" -> <<"x :: 1">>, <<>> >>
+      [] cls = "local" -> << <<>>, <<PlaceName(kind) \o " := 1">> >>
+      [] cls = "unknown" -> << <<>>, <<>> >>
+PlacePositions == <<"fnbody", "doblock", "ifbranch", "elifbranch", "elsebranch", "casearm", "casearmbind", "caseelse",
+                    "loopdo", "loopbare", "closure", "method", "globalinit">>
+\* the lines of the construct that holds statement st at position pos
+PlaceAt(pos, st) ==
+    CASE pos = "fnbody"      -> <<st>>
+      [] pos = "doblock"     -> <<"do", st, "end">>
+      [] pos = "ifbranch"    -> <<"if true do", st, "end">>
+      [] pos = "elifbranch"  -> <<"if false do", "elif true do", st, "end">>
+      [] pos = "elsebranch"  -> <<"if false do", "else", st, "end">>
+      [] pos = "casearm"     -> <<"case E.B do", "B ->", st, "end", "else", "end", "end">>
+      [] pos = "casearmbind" -> <<"case E.A 1 do", "A v ->", st, "end", "else", "end", "end">>
+      [] pos = "caseelse"    -> <<"case E.B do", "A v ->", "end", "else", st, "end", "end">>
+      [] pos = "loopdo"      -> <<"loop false do", st, "end">>
+      [] pos = "loopbare"    -> <<"loop false " \o st>>
+      [] pos = "closure"     -> <<"k := fn do", st, "end">>
+      [] pos = "method"      -> <<"m := Mb { f: fn do", st, "end }">>
+      [] pos = "globalinit"  -> <<st>>
+PlaceFileB == FamLines(<<"x :: 1", "v := 1", "U :: blob { f: int }">>)
+PlaceMain(kind, pos, cls) ==
+    LET ctx == PlaceContext(kind, cls)
+        head == <<"E :: enum A int, B end", "Mb :: blob { f: fn -> void }">> \o ctx[1] IN
+    IF pos = "globalinit"
+    THEN FamLines(head \o <<"gi :: (fn -> int do">> \o ctx[2] \o <<PlaceDecl(kind), "1", "end)()", "start :: fn do", "end">>)
+    ELSE FamLines(head \o <<"start :: fn do">> \o ctx[2] \o PlaceAt(pos, PlaceDecl(kind)) \o <<"end">>)
+PlaceInnerSize == Len(PlaceKinds) * Len(PlacePositions) * Len(PlaceClasses) * 2
+
+\* (2) every statement kind that is legal inside a function only, at the top level of the main / of an imported file
+PlaceOuterKinds == <<
+    [id |-> "assign", st |-> "g = 1"], [id |-> "opassign", st |-> "g += 1"], [id |-> "loop", st |-> "loop false do end"],
+    [id |-> "loopbare", st |-> "loop false break"], [id |-> "break", st |-> "break"], [id |-> "continue", st |-> "continue"],
+    [id |-> "ret", st |-> "ret"], [id |-> "retvalue", st |-> "ret 1"], [id |-> "expression", st |-> "1"],
+    [id |-> "call", st |-> "start()"], [id |-> "unreachable", st |-> "<!>"], [id |-> "block", st |-> "do end"],
+    [id |-> "if", st |-> "if true do end"], [id |-> "case", st |-> "case E.B do else end end"] >>
+PlaceOuterFile(st, first) ==
+    IF first THEN FamLines(<<st, "E :: enum A int, B end", "g := 0", "x :: 1">>)
+    ELSE FamLines(<<"E :: enum A int, B end", "g := 0", "x :: 1", st>>)
+PlaceOuterSize == Len(PlaceOuterKinds) * 2 * 2 * 2
+PlaceSize == PlaceInnerSize + PlaceOuterSize
+PlaceCase(i) ==
+    IF i <= PlaceInnerSize THEN
+        LET m == i - 1
+            std == (m % 2) = 1
+            cls == PlaceClasses[((m \div 2) % 4) + 1]
+            pos == PlacePositions[((m \div 8) % Len(PlacePositions)) + 1]
+            kind == PlaceKinds[(m \div (8 * Len(PlacePositions))) + 1] IN
+        [id |-> "place:" \o kind \o "@" \o pos \o ":" \o cls \o (IF std THEN ":std" ELSE ":nostd"), nostd |-> ~std,
+         files |-> <<FamFile("main.sy", PlaceMain(kind, pos, cls)), FamFile("b.sy", PlaceFileB)>>]
+    ELSE
+        LET m == i - 1 - PlaceInnerSize
+            std == (m % 2) = 1
+            first == ((m \div 2) % 2) = 0
+            imported == ((m \div 4) % 2) = 1
+            k == PlaceOuterKinds[(m \div 8) + 1]
+            text == PlaceOuterFile(k.st, first) IN
+        [id |-> "place:" \o k.id \o "@" \o (IF imported THEN "imported" ELSE "main") \o (IF first THEN ":first" ELSE ":last")
+                \o (IF std THEN ":std" ELSE ":nostd"), nostd |-> ~std,
+         files |-> IF imported THEN <<FamFile("main.sy", FamLines(<<"use b", "start :: fn do", "w := b.x", "end">>)), FamFile("b.sy", text)>>
+                   ELSE <<FamFile("main.sy", text \o FamLines(<<"start :: fn do", "end">>))>>]
+
+\* ---- cyc: import cycles whose files have syntax errors ----------------------------------------------
+\* shapes: the files of the project and what each imports (main first)
+CycShapes == <<
+    [id |-> "self",  names |-> <<"main">>, imports |-> <<"main">>],
+    [id |-> "two",   names |-> <<"main", "b">>, imports |-> <<"b", "main">>],
+    [id |-> "three", names |-> <<"main", "b", "c">>, imports |-> <<"b", "c", "main">>],
+    [id |-> "tail",  names |-> <<"main", "b", "c">>, imports |-> <<"b", "c", "b">>] >>     \* main -> b <-> c
+CycForms == <<"use", "from">>
+CycErrors == << [id |-> "def", st |-> "y :: :: 1"], [id |-> "string", st |-> "y :: " \o DQ \o "abc"],
+                [id |-> "end", st |-> "end"], [id |-> "paren", st |-> "y :: (1"] >>
+CycWhich == <<"all", "none", "mainonly", "othersonly">>
+CycWhere == <<"before", "after">>
+CycBroken(which, q) == which = "all" \/ (which = "mainonly" /\ q = 1) \/ (which = "othersonly" /\ q > 1)
+CycFileText(shape, form, err, which, where, q) ==
+    LET imp == IF form = "use" THEN "use " \o shape.imports[q] ELSE "from " \o shape.imports[q] \o " use x as z"
+        bad == IF CycBroken(which, q) THEN <<err.st>> ELSE <<>> IN
+    FamLines((IF where = "before" THEN bad ELSE <<>>) \o <<imp, "x :: 1">> \o (IF where = "after" THEN bad ELSE <<>>)
+             \o (IF q = 1 THEN <<"start :: fn do", "end">> ELSE <<>>))
+CycSize == Len(CycShapes) * Len(CycForms) * Len(CycErrors) * Len(CycWhich) * Len(CycWhere) * 2
+CycCase(i) ==
+    LET m == i - 1
+        std == (m % 2) = 1
+        where == CycWhere[((m \div 2) % 2) + 1]
+        which == CycWhich[((m \div 4) % 4) + 1]
+        err == CycErrors[((m \div 16) % 4) + 1]
+        form == CycForms[((m \div 64) % 2) + 1]
+        shape == CycShapes[(m \div 128) + 1] IN
+    [id |-> "cyc:" \o shape.id \o ":" \o form \o ":" \o err.id \o ":" \o which \o ":" \o where \o (IF std THEN ":std" ELSE ":nostd"),
+     nostd |-> ~std,
+     files |-> [q \in 1..Len(shape.names) |-> FamFile(shape.names[q] \o ".sy", CycFileText(shape, form, err, which, where, q))]]
+
+\* ---- selfty: a value whose inferred type contains itself, shown in a type error ---------------------
+\* <<top-level lines, lines in start, the variable>>
+SelfMakers == <<
+    [id |-> "list",     top |-> <<>>, body |-> <<"l := []", "l = [l]">>, v |-> "l"],
+    [id |-> "listlist", top |-> <<>>, body |-> <<"l := []", "m := [l]", "l = [m]">>, v |-> "m"],
+    [id |-> "tuple",    top |-> <<>>, body |-> <<"l := []", "u := (l, 1)", "l = [u]">>, v |-> "u"],
+    [id |-> "fn",       top |-> <<"f :: fn ->", "f", "end">>, body |-> <<>>, v |-> "f"],
+    [id |-> "fnlocal",  top |-> <<>>, body |-> <<"l := []", "k := fn -> l end", "l = [k]">>, v |-> "k"],
+    [id |-> "blob",     top |-> <<>>, body |-> <<"l := []", "c := Bg { f: l }", "l = [c]">>, v |-> "c"],
+    [id |-> "blobfield", top |-> <<>>, body |-> <<"c := Bg { f: [] }", "c.f = [c]">>, v |-> "c.f"] >>
+SelfUses == <<
+    [id |-> "add", a |-> "", b |-> " + 1"], [id |-> "neg", a |-> "-", b |-> ""], [id |-> "annot", a |-> "n: int = ", b |-> ""],
+    [id |-> "arg", a |-> "id(", b |-> ")"], [id |-> "call", a |-> "", b |-> "(1, 2)"], [id |-> "field", a |-> "", b |-> ".zz"],
+    [id |-> "index", a |-> "", b |-> "[7]"], [id |-> "less", a |-> "", b |-> " < 1"], [id |-> "asserteq", a |-> "", b |-> " <=> 1"],
+    [id |-> "cond", a |-> "if ", b |-> " do end"], [id |-> "ret", a |-> "ret ", b |-> ""], [id |-> "assign", a |-> "q = ", b |-> ""],
+    [id |-> "variant", a |-> "E.A ", b |-> ""], [id |-> "scrutinee", a |-> "case ", b |-> " do else end end"] >>
+SelfSize == Len(SelfMakers) * Len(SelfUses) * 2
+SelfCase(i) ==
+    LET m == i - 1
+        std == (m % 2) = 1
+        use == SelfUses[((m \div 2) % Len(SelfUses)) + 1]
+        mk == SelfMakers[(m \div (2 * Len(SelfUses))) + 1] IN
+    [id |-> "selfty:" \o mk.id \o ":" \o use.id \o (IF std THEN ":std" ELSE ":nostd"), nostd |-> ~std,
+     files |-> FamMain(NestPrelude \o FamLines(mk.top \o <<"start :: fn do", "q := 0">> \o mk.body \o <<use.a \o mk.v \o use.b, "end">>))]
+
+\* ---- the families by name -------------------------------------------------------------------------
+Families == <<"nest", "nestraw", "nestsolo", "place", "cyc", "selfty">>
+FamSize(f) == CASE f = "nest" -> NestSize [] f = "nestraw" -> RawSize [] f = "nestsolo" -> SoloSize
+                [] f = "place" -> PlaceSize [] f = "cyc" -> CycSize [] f = "selfty" -> SelfSize
+\* what the recorder writes as the input of a case: every file under a header line, main file first
+RECURSIVE FamTextFrom(_, _)
+FamTextFrom(files, q) == IF q > Len(files) THEN "" ELSE "## " \o files[q].name \o NL \o files[q].text \o FamTextFrom(files, q + 1)
+FamText(c) == FamTextFrom(c.files, 1)
+FamCase(f, i) == CASE f = "nest" -> NestCase(i) [] f = "nestraw" -> RawCase(i) [] f = "nestsolo" -> SoloCase(i)
+                   [] f = "place" -> PlaceCase(i) [] f = "cyc" -> CycCase(i) [] f = "selfty" -> SelfCase(i)
+
+---------------------------------------------------------------------------
 Init == /\ phase = "idle" /\ input = "" /\ stage = "none"
         /\ errs = 0 /\ bytes = 0 /\ rendered = <<>>
 
